@@ -2,7 +2,6 @@
    exact closed form of the deviation, its bound, and a point where it exceeds 1e-6. *)
 From Coq Require Import Reals List Arith Bool ZArith QArith Qreals Lia Lra Psatz.
 From Coquelicot Require Import Coquelicot.
-From Interval Require Import Tactic.
 From PA Require Import model.Poly model.AbelPoly proofs.AbelPolyAlg proofs.AbelPolyInt proofs.PolyTop proofs.PolyPiecewise proofs.PairsClosed gen.FormulasPairs.
 Import ListNotations.
 Open Scope R_scope.
@@ -66,9 +65,30 @@ Proof.
     rewrite (Rplus_comm 1 a1), Rplus_0_l. field.
 Qed.
 
+Lemma dev_bound_aux : forall a, 0 <= a <= 1 -> -36/10 <= a * (9 - 10 * (a * a)) <= 36/10.
+Proof.
+  intros a [H0 H1]. split.
+  - assert (0 <= a * a <= 1) by nra. nra.
+  - pose proof (Rle_0_sqr (a - 11/20)) as S. unfold Rsqr in S.
+    assert (T : 0 <= 10 * a + 11) by lra.
+    pose proof (Rmult_le_pos _ _ S T) as H.
+    replace ((a - 11 / 20) * (a - 11 / 20) * (10 * a + 11))
+      with (10 * (a * (a * a)) - 9075/1000 * a + 33275/10000) in H by field.
+    lra.
+Qed.
+
 Lemma prof4_dev_bound : forall x, 0 <= x <= 1 -> Rabs (prof4_dev x) <= 12 / 10000000.
 Proof.
-  intros. unfold prof4_dev. interval with (i_bisect x, i_depth 30).
+  intros x Hx. unfold prof4_dev.
+  assert (Hs : 0 <= 1 * 1 - x * x) by nra.
+  pose proof (sqrt_pos (1 * 1 - x * x)) as Ha0.
+  pose proof (sqrt_sqrt _ Hs) as Ha2.
+  set (a := sqrt (1 * 1 - x * x)) in *.
+  assert (Ha1 : a <= 1) by nra.
+  replace (a * (10 * x ^ 2 - 1) / 3000000) with (a * (9 - 10 * (a * a)) / 3000000)
+    by (rewrite Ha2; field).
+  pose proof (dev_bound_aux a (conj Ha0 Ha1)).
+  apply Rabs_le. lra.
 Qed.
 
 Theorem profile4_pair_tol : forall x, 0 < x < 1 ->
@@ -78,5 +98,15 @@ Proof. intros. rewrite profile4_deviation by auto. apply prof4_dev_bound. lra. Q
 Theorem profile4_exact_refuted : exists x, 0 < x < 1 /\
   Rabs (prof4_proj x - Abel prof4_source 1 x) > 1 / 1000000.
 Proof.
-  exists (167 / 200). split. lra. rewrite profile4_deviation by lra. unfold prof4_dev. interval.
+  exists (167 / 200). split. lra. rewrite profile4_deviation by lra. unfold prof4_dev.
+  assert (L : 11 / 20 <= sqrt (1 * 1 - 167 / 200 * (167 / 200))).
+  { replace (11 / 20) with (sqrt (11 / 20 * (11 / 20))) by (apply sqrt_square; lra).
+    apply sqrt_le_1_alt. lra. }
+  set (a := sqrt (1 * 1 - 167 / 200 * (167 / 200))) in *.
+  rewrite Rabs_right.
+  - assert (597225 / 100000 <= 10 * (167 / 200) ^ 2 - 1) by (simpl; lra).
+    assert (11 / 20 * (597225 / 100000) <= a * (10 * (167 / 200) ^ 2 - 1)) by (apply Rmult_le_compat; lra).
+    lra.
+  - assert (0 <= 10 * (167 / 200) ^ 2 - 1) by (simpl; lra).
+    assert (0 <= a * (10 * (167 / 200) ^ 2 - 1)) by (apply Rmult_le_pos; lra). lra.
 Qed.
